@@ -117,6 +117,11 @@ def base_dumps():
     out['v3-syscalls'] = v3d(threads=[(1, 10, 'procA'), (2, 20, 'procB')], chunks=[syscall_records()[:4], syscall_records()[4:]],
                              blocks=[codes])
     out['v3-unordered'] = v3d(threads=[(9, 10, 'procA')], chunks=[unordered[:9], unordered[9:]])
+    # records whose argument words spell container tags (events tag + a plausible length, more-events tag, thread-map tag): a reader
+    # that re-synchronises after a short read must not take them for structure
+    tagw = [B.rec(300 + i, w, 9, 0x040c000d) for i, w in enumerate([(0x1e00, 128, 0x1e00, 64), (0x2000, 0, 0x1d00, 32), (0x1e00, 64, 1, 2), (7, 0x1e00, 192, 0x1e00),
+                                                                     (0x1e00, 128, 3, 4), (5, 6, 7, 8), (0x1e00, 64, 0x1e00, 64), (9, 9, 9, 9)])]
+    out['v3-tag-words-in-records'] = v3d(threads=[(9, 10, 'procA')], chunks=[tagw[:5], tagw[5:]])
     out['v3-nochunks-meta'] = v3d(threads=[], chunks=[[]], blocks=[codes], with8=False)
     return out
 
